@@ -1,4 +1,4 @@
-import HioModel.Sched.TimeFlatL
+import HioModel.Sched.TimeFlags
 /-!
 # C04 "Nesting doers inside a tock-0 DoDoer is observationally transparent"
 
@@ -32,15 +32,19 @@ variable [Add τ] [LE τ] [DecidableRel (α := τ) (· ≤ ·)] [OfNat τ 0] [BE
 are observationally equal.  Any nesting depth, any number of groups, empty groups, to completion or to a limit. -/
 theorem flatten_transparent_partial (keep : Id → Bool) (pool : List (Spec τ)) (tock start : τ) (limit : Option τ)
     (fuel : Nat) {p q : List (Spec τ)} (h0 : 0 ≤ tock) (hF : Flattens keep p q) (hG : Spec.allStepsL g04 p = true) :
-    SameView keep (doistDo pool tock start limit fuel p) (doistDo pool tock start limit fuel q) := by
-  obtain ⟨esP, N0, esQ, F0, hP, hQ, hv, hs⟩ := hF.enter hG start
-  have hvQ : keepView keep esQ = esQ := by rw [← hv, keepView_idem]
-  unfold doistDo
-  rw [hP, hQ]
-  simp only []
-  obtain ⟨e1, e2, e3, e4, e5, e6⟩ :=
-    Sim.doLoop h0 pool (limit.map (start + ·)) fuel 0 start false N0 F0 (p.map Spec.id) (q.map Spec.id) hs
-  exact ⟨by simp only [keepView_append, hv, hvQ, e1], e2, e3, e4, e5, e6⟩
+    SameView keep (doistDo pool tock start limit fuel p) (doistDo pool tock start limit fuel q) :=
+  hF.sameView hG pool h0 start limit fuel
+
+/-- spelled out for one observed doer `i`: same resumption tymes and same final done flag -/
+theorem flatten_transparent_doer_partial (keep : Id → Bool) (pool : List (Spec τ)) (tock start : τ) (limit : Option τ)
+    (fuel : Nat) {p q : List (Spec τ)} (h0 : 0 ≤ tock) (hF : Flattens keep p q) (hG : Spec.allStepsL g04 p = true)
+    (i : Id) (hk : keep i = true) :
+    recurTymes i (doistDo pool tock start limit fuel p).evs = recurTymes i (doistDo pool tock start limit fuel q).evs
+    ∧ finalFlag (doistDo pool tock start limit fuel p).evs i = finalFlag (doistDo pool tock start limit fuel q).evs i := by
+  have hv := (hF.sameView hG pool h0 start limit fuel).1
+  constructor
+  · rw [← keepView_recurTymes keep i hk, ← keepView_recurTymes keep i hk (doistDo pool tock start limit fuel q).evs, hv]
+  · rw [← finalFlag_keepView keep i hk, ← finalFlag_keepView keep i hk (doistDo pool tock start limit fuel q).evs, hv]
 
 /-- the same for the flattening FUNCTION the driver and the oracle use -/
 theorem flatL_transparent_partial (keep : Id → Bool) (pool : List (Spec τ)) (tock start : τ) (limit : Option τ)
@@ -83,16 +87,6 @@ def f46Nested : List (Spec Nat) :=
 def f46Flat : List (Spec Nat) :=
   [.leaf 1 .ok [yS (some 0), yS (some 3), yS (some 0), yS (some 0)],
    .leaf 2 .ok [yS (some 0), yS (some 0), yS (some 0), yS (some 0), yS (some 0), yS (some 0), yS (some 0)]]
-
-theorem keepView_recurTymes (keep : Id → Bool) (i : Id) (hk : keep i = true) (evs : List (Ev Nat)) :
-    recurTymes i (keepView keep evs) = recurTymes i evs := by
-  simp only [recurTymes, keepView, List.filter_filter]
-  congr 1
-  apply List.filter_congr
-  intro e _
-  by_cases h : e.id = i
-  · simp [h, hk]
-  · simp [h]
 
 /-- the UNGUARDED statement fails on the model: `f46Flat` is the flattening of `f46Nested` (only G04 is violated), yet
 leaf 1 is resumed at 0,1,4,5,6 flat and at 0,1,3,4,5 nested -/
